@@ -30,8 +30,8 @@ func (m *Model) isOnDemoteInvocation(in ssa.Instruction) bool {
 	if m.invokesFieldValue(in, m.OnDemote) {
 		return true
 	}
-	if g, ok := in.(*ssa.Go); ok {
-		for _, t := range m.funcValueTargets(g.Call.Value) {
+	if sp := m.spawnAt(in); sp != nil {
+		for _, t := range sp.Targets {
 			found := false
 			eachInstr(t, func(x ssa.Instruction) {
 				if m.invokesFieldValue(x, m.OnDemote) {
@@ -98,6 +98,20 @@ func (m *Model) prevClaimLit(l Lit, truth bool) bool {
 	if l.Truth != truth {
 		return false
 	}
+	// `x && wasLeader` kept in a local: phi[wasLeader | false]; true implies wasLeader
+	if truth && l.S.Op == "phi" {
+		n := 0
+		for _, a := range l.S.Args {
+			if a.Op == "const" && a.Name == "false" {
+				continue
+			}
+			if !m.prevClaimLit(Lit{S: a, Truth: true}, true) {
+				return false
+			}
+			n++
+		}
+		return n > 0
+	}
 	if call, ok := l.S.V.(*ssa.Call); ok {
 		if g := call.Call.StaticCallee(); g != nil && m.isLib(g) && m.returnsPrevClaim(g, 0) {
 			return true
@@ -134,16 +148,16 @@ func checkC08(c *Ctx) {
 			continue
 		}
 		// spawned by go after the claim store
-		var goSite *ssa.Go
+		var goSite ssa.Instruction
 		var claimStore ssa.Instruction
-		eachInstr(top, func(in ssa.Instruction) {
-			if g, ok := in.(*ssa.Go); ok {
-				for _, t := range m.funcValueTargets(g.Call.Value) {
-					if t == s.fn {
-						goSite = g
-					}
+		for _, sp := range m.Spawns() {
+			for _, t := range sp.Targets {
+				if (t == s.fn || m.staticReach(t, false)[s.fn]) && containsFn(m.ClaimSet, sp.Fn) {
+					goSite = sp.At
 				}
 			}
+		}
+		eachInstr(top, func(in ssa.Instruction) {
 			if val, isConst, ok := m.claimStore(in); ok && isConst && val {
 				claimStore = in
 			}
